@@ -460,6 +460,24 @@ def _dataset(rng, cls, n, m, names, nmax, mmax):
                     r.append([e])
             ds.append(r)
         return ds
+    if cls == "D18":     # print twins: different complete rankings whose textual forms coincide (names made of the
+        twins = ["x", "x, x", "x, x, x"]      # separators a bucket is printed with)
+        extra = [e for e in ["w", "a", 7, "k_9"] if rng.random() < 0.4]
+        extra = [str(e) for e in extra]
+        r1 = [["x", "x, x"], ["x, x, x"]]
+        r2 = [["x, x, x"], ["x", "x, x"]]
+        ds = []
+        for _ in range(rng.randint(2, 5)):
+            base = [list(b) for b in (r1 if rng.random() < 0.55 else r2)]
+            tail = list(extra)
+            rng.shuffle(tail)
+            pos = rng.randint(0, len(base))
+            ds.append(base[:pos] + [[e] for e in tail] + base[pos:] if rng.random() < 0.5 else base + [[e] for e in tail])
+        if all(ref.canon(r) == ref.canon(ds[0]) for r in ds):
+            ds.append([list(b) for b in (r2 if ref.canon(ds[0])[0] == frozenset(r1[0]) else r1)] + [[e] for e in extra])
+        if rng.random() < 0.3:
+            ds.append(ranking_over(rng, twins + extra, 0.3))
+        return ds
     if cls == "D16":     # an incomplete ranking next to its own unified form, an empty ranking next to the all-tied one
         ds = _dataset(rng, rng.choice(["D3", "D3", "D4", "D7"]), n, m, names, nmax, mmax)
         uni = ref.universe(ds)
